@@ -42,7 +42,7 @@ DEFAULTS: Dict[str, Any] = dict(
     max_depth=3, ops_per_step=(2, 5), big_corr=False, autograd=False, bwd_annotation=True, step_gap=(0, 1, 1, 7),
     pre_ops=1, post_ops=1, first_step=None, file_order="time", p_plain_rt=0.08, kernel_durs=(0, 1, 5, 20, 60),
     launch_lat=(0, 0, 1, 3, 10), queue_lat=(0, 0, 1, 5, 40), device_pid=0, repeat_names=False, annotation_nest=False,
-    p_leaf_children=(0, 3), ops_pool=None, p_unlaunched=0.0, sync_straddle=False, source_counters=False, outer_frame=False, corr_zero=False, small_corr=False, tid_base=None, tid_desc=False, post_launch=False, exotic_launch=False, multi_process=False, graph_launch=False, p_zero_launch=0.0, nested_driver=False,
+    p_leaf_children=(0, 3), ops_pool=None, p_unlaunched=0.0, sync_straddle=False, source_counters=False, outer_frame=False, corr_zero=False, small_corr=False, tid_base=None, tid_desc=False, post_launch=False, exotic_launch=False, multi_process=False, graph_launch=False, p_zero_launch=0.0, nested_driver=False, p_annotation=0.15,
 )
 
 
@@ -268,7 +268,7 @@ class Sim:
                 th["t"] += 1
             yield
             return
-        cat = "user_annotation" if (p["annotation_nest"] and self.r.random() < 0.15) else "cpu_op"
+        cat = "user_annotation" if (p["annotation_nest"] and self.r.random() < p["p_annotation"]) else "cpu_op"
         nm = self.r.choice(names) if cat == "cpu_op" else self.r.choice(["my_region", "fwd_block"])
         e = self.X(cat, nm, th.get("pid", self.host_pid), th["tid"], ts, 0, {"External id": self.newcorr(True)} if cat == "cpu_op" else {})
         th["t"] += self.d(0, 2)
